@@ -103,7 +103,8 @@ def fromSan (T : Tables) (b : Board) (s : List Char) : Res Move :=
   if ct = "O-O".toList ∨ ct = "O-O-O".toList then
     let rank := b.stm.backrank
     let m : Move := ⟨mkSq rank 4, mkSq rank (if ct = "O-O".toList then 6 else 2), none⟩
-    if (b.legalMoves T).contains m then .ok m else .err
+    -- the e-file home square must hold the king (castling text denotes castling only)
+    if b.pieceOn m.src == some .king && (b.legalMoves T).contains m then .ok m else .err
   else
     match scan s with
     | none => .err
